@@ -46,9 +46,13 @@ Theorem C17_noninterference_fixed :
 Proof. exact noninterference_fixed. Qed.
 Print Assumptions C17_noninterference_fixed.
 
-(** frame: an API step changes the shared state at most in [prec] *)
+(** frame: an API step changes the shared state at most in the cells of the module-level
+    decimal context: [prec], and its sticky (write-only) signal flags, which only ever go up *)
 Theorem C17_frame :
-  forall g c, other (fst (api_step g c)) = other g /\ exists p, fst (api_step g c) = set_prec g p.
+  forall g c, other (fst (api_step g c)) = other g /\
+              (exists p i r, fst (api_step g c) = mkG p i r (other g)) /\
+              (inexact g = true -> inexact (fst (api_step g c)) = true) /\
+              (rounded g = true -> rounded (fst (api_step g c)) = true).
 Proof. exact frame. Qed.
 Print Assumptions C17_frame.
 
@@ -74,8 +78,9 @@ Example C17_example :
   let h := [CParse; CRead [mkDF 9 2 123456789]; CFailing (CRead [mkDF 3 0 1; mkDF 4 0 1]) 1;
             CWrite; CJsonRead [mkDF 0 0 5]; CValidate] in
   let c := CRead [mkDF 2 1 12355; mkDF 5 0 (-99999)] in
-  prec (fold_left (fun g c => fst (api_step g c)) h g0) = 3 /\
-  prec g0 = 28 /\
+  fold_left (fun g c => fst (api_step g c)) h g0 = mkG 3 false false [] /\
+  fst (api_step g0 c) = mkG 5 true true [] /\
+  g0 = mkG 28 false false [] /\
   snd (api_step (fold_left (fun g c => fst (api_step g c)) h g0) c)
     = ROk [mkD false 12 2; mkD true 99999 0] /\
   snd (api_step g0 c) = ROk [mkD false 12 2; mkD true 99999 0] /\
